@@ -17,7 +17,9 @@
 (***************************************************************************)
 EXTENDS Integers, TLC
 
-CONSTANTS SpinSync,      \* world configured with force_spin_sync
+CONSTANTS OrbKinds, SpinKinds,   \* which of the equivalent input kinds (n | P | a, frequency | period) the model distinguishes
+          AllowDeferred,         \* include the call_updates=False / run_updates=False setters (one outstanding at a time)
+          SpinSync,      \* world configured with force_spin_sync
           ObliqOn,       \* tides configured with obliquity_tides_on
           FixTerms,      \* TRUE: per-frequency terms are recomputed whenever the eccentricity/obliquity results were refreshed
           FixLove        \* TRUE: fixed_q_dt_changed rebuilds the CPL/CTL Love numbers before collapsing
@@ -25,12 +27,13 @@ CONSTANTS SpinSync,      \* world configured with force_spin_sync
 VARIABLES e, obl, orb, spin, q,              \* inputs (value ids)
           orbA, orbN, orbP,                  \* the orbit's stored triple (id each was last derived from)
           eccRes, oblRes, sus, terms, love,  \* memoised intermediates of the tides object
-          coll, deriv                        \* exposed results: (heating, dUdM, dUdw, dUdO, k2) and (da/dt, de/dt, dn/dt)
+          coll, deriv,                       \* exposed results: (heating, dUdM, dUdw, dUdO, k2) and (da/dt, de/dt, dn/dt)
+          pending                            \* inputs changed with call_updates=False / run_updates=False and not yet propagated
 
 inputs == <<e, obl, orb, spin, q>>
 triple == <<orbA, orbN, orbP>>
 memos  == <<eccRes, oblRes, sus, terms, love, coll, deriv>>
-vars   == <<inputs, triple, memos>>
+vars   == <<inputs, triple, memos, pending>>
 
 None == <<>>
 Vals == 0..2
@@ -71,8 +74,16 @@ TidesOSC(m, ne, nobl, norb, nspin, nq, eccCh, oblCh, orbCh, spinCh) ==
 WorldOSC(m, ne, nobl, norb, nspin, nq, eccCh, oblCh, orbCh, spinCh) ==
   OrbitDiss(TidesOSC(m, ne, nobl, norb, nspin, nq, eccCh, oblCh, orbCh, spinCh), ne, norb)
 
+\* is the memo record m fresh for the inputs (ne, nobl, norb, nspin, nq)?
+FreshOf(m, ne, nobl, norb, nspin, nq) ==
+  LET ec == << <<ne, IF ObliqOn THEN nobl ELSE Zero, norb, nspin>>, <<norb, nspin, nq>>, norb >>
+  IN /\ m.sus = norb /\ m.eccRes = ne /\ m.oblRes = (IF ObliqOn THEN nobl ELSE Zero)
+     /\ IF nspin # NoSpin THEN m.coll = ec /\ m.deriv = <<ec, ne, norb>> ELSE m.coll = None /\ m.deriv = None
+
+\* store the memos; a deferred change stops being pending as soon as an update has propagated it
 SetMemos(m) == /\ eccRes' = m.eccRes /\ oblRes' = m.oblRes /\ sus' = m.sus /\ terms' = m.terms
                /\ love' = m.love /\ coll' = m.coll /\ deriv' = m.deriv
+               /\ pending' = IF FreshOf(m, e', obl', orb', spin', q') THEN {} ELSE pending
 
 SetMemos0(m) == /\ eccRes = m.eccRes /\ oblRes = m.oblRes /\ sus = m.sus /\ terms = m.terms
                 /\ love = m.love /\ coll = m.coll /\ deriv = m.deriv
@@ -90,6 +101,7 @@ Init ==
   /\ spin = (IF SpinSync THEN 0 ELSE NoSpin)
   /\ orbA = 0 /\ orbN = 0 /\ orbP = 0
   /\ SetMemos0(WorldOSC(BlankMemo, 0, 0, 0, IF SpinSync THEN 0 ELSE NoSpin, 0, TRUE, FALSE, TRUE, SpinSync))
+  /\ pending = {}
 
 (* ------------------------------------ actions ------------------------------------ *)
 
@@ -128,7 +140,7 @@ OrbitSetState(ec, orv, ork) ==
         /\ SetMemos(WorldOSC(Memo, ne, obl, norb, nspin, q, Given(ec), FALSE, Given(orv), Given(orv) /\ SpinSync))
 
 \* orbit.set_eccentricity(world, v)   ==  world.eccentricity = v
-OrbitSetEcc(ec) == OrbitSetState(ec, NotGiven, "n")
+OrbitSetEcc(ec) == OrbitSetState(ec, NotGiven, CHOOSE k \in OrbKinds : TRUE)
 \* orbit.set_orbital_frequency / set_orbital_period / set_semi_major_axis (world, v) == world.<property> = v
 OrbitSetOrb(orv, ork) == OrbitSetState(NotGiven, orv, ork)
 
@@ -138,25 +150,34 @@ SetQ(nq, path) ==
   /\ LET m1 == IF FixLove /\ love # None THEN [Memo EXCEPT !.love = <<orb, spin, nq>>] ELSE Memo
      IN SetMemos(Collapse(m1, e, orb))
 
+\* ---- deferred changes: the setter stores the value and runs no update (call_updates=False / run_updates=False) ----
+Keep == UNCHANGED <<triple, memos>>
+WorldSetSpinDeferred(sp, spk) == /\ AllowDeferred /\ pending = {} /\ ~SpinSync /\ spin' = sp /\ pending' = (IF FreshOf(Memo, e, obl, orb, sp, q) THEN {} ELSE {"spin"}) /\ Keep /\ UNCHANGED <<e, obl, orb, q>>
+WorldSetObliquityDeferred(ob) == /\ AllowDeferred /\ pending = {} /\ obl' = ob /\ pending' = (IF FreshOf(Memo, e, ob, orb, spin, q) THEN {} ELSE {"obl"}) /\ Keep /\ UNCHANGED <<e, orb, spin, q>>
+SetQDeferred(nq) == /\ AllowDeferred /\ pending = {} /\ q' = nq /\ pending' = (IF FreshOf(Memo, e, obl, orb, spin, nq) THEN {} ELSE {"q"}) /\ Keep /\ UNCHANGED <<e, obl, orb, spin>>
+
 SpinVals == 0..2
 OptVals == {NotGiven} \cup Vals
 OptSpin == {NotGiven} \cup SpinVals
 
 \* guards that only normalise unused "kind" parameters
 WSetState(sp, spk, ob, ec, orv, ork) ==
-  /\ (sp = NotGiven => spk = "f") /\ (orv = NotGiven => ork = "n")
+  /\ (sp = NotGiven => spk = CHOOSE k \in SpinKinds : TRUE) /\ (orv = NotGiven => ork = CHOOSE k \in OrbKinds : TRUE)
   /\ WorldSetState(sp, spk, ob, ec, orv, ork)
 OSetState(ec, orv, ork) == Given(ec) /\ Given(orv) /\ OrbitSetState(ec, orv, ork)
 
 Next ==
-  \/ \E sp \in OptSpin, spk \in {"f", "p"}, ob \in OptVals, ec \in OptVals, orv \in OptVals, ork \in {"n", "P", "a"} :
+  \/ \E sp \in OptSpin, spk \in SpinKinds, ob \in OptVals, ec \in OptVals, orv \in OptVals, ork \in OrbKinds :
         WSetState(sp, spk, ob, ec, orv, ork)
-  \/ \E sp \in SpinVals, spk \in {"f", "p"} : WorldSetSpin(sp, spk)
+  \/ \E sp \in SpinVals, spk \in SpinKinds : WorldSetSpin(sp, spk)
   \/ \E ob \in Vals : WorldSetObliquity(ob)
-  \/ \E ec \in Vals, orv \in Vals, ork \in {"n", "P", "a"} : OSetState(ec, orv, ork)
+  \/ \E ec \in Vals, orv \in Vals, ork \in OrbKinds : OSetState(ec, orv, ork)
   \/ \E ec \in Vals : OrbitSetEcc(ec)
-  \/ \E orv \in Vals, ork \in {"n", "P", "a"} : OrbitSetOrb(orv, ork)
+  \/ \E orv \in Vals, ork \in OrbKinds : OrbitSetOrb(orv, ork)
   \/ \E nq \in Vals, path \in {"world_prop", "world_set", "tides_set", "tides_state"} : SetQ(nq, path)
+  \/ \E sp \in SpinVals, spk \in SpinKinds : WorldSetSpinDeferred(sp, spk)
+  \/ \E ob \in Vals : WorldSetObliquityDeferred(ob)
+  \/ \E nq \in Vals : SetQDeferred(nq)
 
 Spec == Init /\ [][Next]_vars
 
@@ -166,10 +187,13 @@ OblEff == IF ObliqOn THEN obl ELSE Zero
 ExpectedColl == << <<e, OblEff, orb, spin>>, <<orb, spin, q>>, orb >>
 
 \* C13: every exposed derived quantity is a function of the current inputs only
-C13_Fresh ==
+C13_Fresh == pending = {} =>
   /\ sus = orb
   /\ IF spin # NoSpin THEN coll = ExpectedColl /\ deriv = <<ExpectedColl, e, orb>>
                  ELSE coll = None /\ deriv = None
+\* a deferred spin / fixed-Q change is completed by ANY later update that recomputes the tidal terms; a deferred
+\* obliquity change by any later update that flags the obliquity (liveness of "pending" is not claimed, only this):
+PendingMeansDeferred == pending # {} => ~FreshOf(Memo, e, obl, orb, spin, q)
 
 \* C17 (history clause): semi-major axis, mean motion and period always come from the same update
 C17_Kepler == orbA = orb /\ orbN = orb /\ orbP = orb
